@@ -1,2 +1,106 @@
-(* C05 statements; proofs in Proofs/. *)
-From BaoV Require Import Model.Fsm Spec.EncSpec.
+(* C05 - the validating encoder never emits bytes that are not a prefix of the honest encoding, whatever
+   the store contains.  Statements only; proofs in Proofs/Enc*.v.
+   Units of the plan (Proofs/EncMain.v): a parent item = the stored pair of its node; a leaf item = the
+   stored bytes of its chunk group [c, gE c)  (gE HO data bs c = min (c + 2^bs) (nchunks size)).
+     unit_ok HO data bs load data' u : the stored unit equals the blob's
+        (CParent n ..: load n = Ok (Some (true_pair HO data n));
+         CLeaf c sz ..: read_exact_at HO data' (to_bytes c) sz = Ok (chunk_bytes HO data c (gE c)))
+     hb HO data bs q u : the honest bytes of the unit (the true pair; the honest encoding of the group)
+     hbs HO data bs q l = concat (map hb l)
+     is_mismatch r = (exists n, r = Err (EParentHashMismatch n)) \/ (exists c, r = Err (ELeafHashMismatch c)) *)
+From BaoV Require Import Model.Fsm Spec.RangeSpec Spec.PlanSpec Spec.EncSpec Spec.HashAssm.
+From BaoV Require Import Proofs.EncLoop Proofs.EncMain Proofs.EncThm.
+
+Theorem C05_prefix : forall (HO : hops) (data : bytes HO) (bs : N) (q : ranges),
+  wf_ranges q = true -> blen HO data <= 2 ^ 63 -> bs <= 10 ->
+  forall ob : outboard HO,
+  ob_tree ob = mkTree (blen HO data) bs -> ob_root ob = root_hash HO data ->
+  forall (data' : bytes HO) (r : res enc_err unit) (out : bytes HO),
+  hash_ok HO ->
+  encode_ranges_validated HO data' ob q = (r, out) ->
+  (exists tail, flat HO (honest HO data bs q) = out ++ tail /\
+                (r = Ok tt -> tail = []) /\ (is_mismatch r -> tail <> [])) /\
+  (r = Ok tt \/ is_mismatch r \/ (exists k, r = Err (EIo k)) \/ r = Panic) /\
+  ((forall nd, In nd (enc_nodes (blen HO data) bs q) -> exists p, load_sync HO ob nd = Ok (Some p)) ->
+     r <> Panic /\ (blen HO data' = blen HO data -> forall k, r <> Err (EIo k))).
+Proof. exact c05_prefix. Qed.
+Print Assumptions C05_prefix.
+
+Theorem C05_prefix_fsm : forall (HO : hops) (data : bytes HO) (bs : N) (q : ranges),
+  wf_ranges q = true -> blen HO data <= 2 ^ 63 -> bs <= 10 ->
+  forall ob : outboard HO,
+  ob_tree ob = mkTree (blen HO data) bs -> ob_root ob = root_hash HO data ->
+  forall (data' : bytes HO) (r : res enc_err unit) (out : bytes HO),
+  hash_ok HO -> q <> [] ->
+  encode_ranges_validated_fsm HO data' ob q = (r, out) ->
+  (exists tail, flat HO (honest HO data bs q) = out ++ tail /\
+                (r = Ok tt -> tail = []) /\ (is_mismatch r -> tail <> [])) /\
+  (r = Ok tt \/ is_mismatch r \/ (exists k, r = Err (EIo k)) \/ r = Panic) /\
+  ((forall nd, In nd (enc_nodes (blen HO data) bs q) -> exists p, load_fsm HO ob nd = Ok (Some p)) ->
+     r <> Panic /\ (blen HO data' = blen HO data -> forall k, r <> Err (EIo k))).
+Proof. exact c05_prefix_fsm. Qed.
+Print Assumptions C05_prefix_fsm.
+
+(* the first unit of the plan (in plan order) that differs from the blob decides the result *)
+Theorem C05_detects : forall (HO : hops) (data : bytes HO) (bs : N) (q : ranges),
+  wf_ranges q = true -> blen HO data <= 2 ^ 63 -> bs <= 10 ->
+  forall ob : outboard HO,
+  ob_tree ob = mkTree (blen HO data) bs -> ob_root ob = root_hash HO data ->
+  forall (data' : bytes HO) (P1 : list chunk) (u : chunk) (P2 : list chunk),
+  hash_ok HO ->
+  pre_order_chunks_iter (mkTree (blen HO data) bs) (truncate_ranges q (blen HO data)) 0 = P1 ++ u :: P2 ->
+  Forall (unit_ok HO data bs (load_sync HO ob) data') P1 ->
+  flat HO (honest HO data bs q) = hbs HO data bs q P1 ++ hb HO data bs q u ++ hbs HO data bs q P2 /\
+  (forall n ir lf rt rs p, u = CParent n ir lf rt rs ->
+     load_sync HO ob n = Ok (Some p) -> p <> true_pair HO data n ->
+     encode_ranges_validated HO data' ob q = (Err (EParentHashMismatch n), hbs HO data bs q P1)) /\
+  (forall c sz ir rs buf, u = CLeaf c sz ir rs ->
+     read_exact_at HO data' (to_bytes c) sz = Ok buf -> buf <> chunk_bytes HO data c (gE HO data bs c) ->
+     encode_ranges_validated HO data' ob q = (Err (ELeafHashMismatch c), hbs HO data bs q P1)).
+Proof. exact c05_detects. Qed.
+Print Assumptions C05_detects.
+
+Theorem C05_detects_fsm : forall (HO : hops) (data : bytes HO) (bs : N) (q : ranges),
+  wf_ranges q = true -> blen HO data <= 2 ^ 63 -> bs <= 10 ->
+  forall ob : outboard HO,
+  ob_tree ob = mkTree (blen HO data) bs -> ob_root ob = root_hash HO data ->
+  forall (data' : bytes HO) (P1 : list chunk) (u : chunk) (P2 : list chunk),
+  hash_ok HO ->
+  pre_order_chunks_iter (mkTree (blen HO data) bs) (truncate_ranges q (blen HO data)) 0 = P1 ++ u :: P2 ->
+  Forall (unit_ok HO data bs (load_fsm HO ob) data') P1 ->
+  flat HO (honest HO data bs q) = hbs HO data bs q P1 ++ hb HO data bs q u ++ hbs HO data bs q P2 /\
+  (forall n ir lf rt rs p, u = CParent n ir lf rt rs ->
+     load_fsm HO ob n = Ok (Some p) -> p <> true_pair HO data n ->
+     encode_ranges_validated_fsm HO data' ob q = (Err (EParentHashMismatch n), hbs HO data bs q P1)) /\
+  (forall c sz ir rs buf, u = CLeaf c sz ir rs ->
+     read_exact_at HO data' (to_bytes c) sz = Ok buf -> buf <> chunk_bytes HO data c (gE HO data bs c) ->
+     encode_ranges_validated_fsm HO data' ob q = (Err (ELeafHashMismatch c), hbs HO data bs q P1)).
+Proof. exact c05_detects_fsm. Qed.
+Print Assumptions C05_detects_fsm.
+
+(* stores that agree with the blob on every unit of the plan: only a correct byte comparison is assumed *)
+Theorem C05_independent : forall (HO : hops) (data : bytes HO) (bs : N) (q : ranges),
+  wf_ranges q = true -> blen HO data <= 2 ^ 63 -> bs <= 10 ->
+  forall ob : outboard HO,
+  ob_tree ob = mkTree (blen HO data) bs -> ob_root ob = root_hash HO data ->
+  forall data' : bytes HO,
+  beq_correct HO ->
+  Forall (unit_ok HO data bs (load_sync HO ob) data')
+         (pre_order_chunks_iter (mkTree (blen HO data) bs) (truncate_ranges q (blen HO data)) 0) ->
+  encode_ranges_validated HO data' ob q = (Ok tt, flat HO (honest HO data bs q)) /\
+  exists its, traverse_ranges_validated HO data' ob q = Some (ESize (blen HO data) :: map EItem its ++ [EDone]) /\
+              concat (map (item_bytes HO) its) = flat HO (honest HO data bs q).
+Proof. exact c05_independent. Qed.
+Print Assumptions C05_independent.
+
+Theorem C05_independent_fsm : forall (HO : hops) (data : bytes HO) (bs : N) (q : ranges),
+  wf_ranges q = true -> blen HO data <= 2 ^ 63 -> bs <= 10 ->
+  forall ob : outboard HO,
+  ob_tree ob = mkTree (blen HO data) bs -> ob_root ob = root_hash HO data ->
+  forall data' : bytes HO,
+  beq_correct HO ->
+  Forall (unit_ok HO data bs (load_fsm HO ob) data')
+         (pre_order_chunks_iter (mkTree (blen HO data) bs) (truncate_ranges q (blen HO data)) 0) ->
+  encode_ranges_validated_fsm HO data' ob q = (Ok tt, flat HO (honest HO data bs q)).
+Proof. exact c05_independent_fsm. Qed.
+Print Assumptions C05_independent_fsm.
